@@ -28,6 +28,7 @@ fn main() {
         "C01" => drive(&props::c01::C01, tier, seed, replay),
         "C02" => drive(&props::c02::C02, tier, seed, replay),
         "C03" => drive(&props::c03::C03, tier, seed, replay),
+        "C04" => drive(&props::c04::C04, tier, seed, replay),
         "C05" => drive(&props::c05::C05, tier, seed, replay),
         "C06" => drive(&props::c06::C06, tier, seed, replay),
         "C07" => drive(&props::c07::C07, tier, seed, replay),
